@@ -109,8 +109,93 @@ def harnesses_for(pid, tier, seed=0):
     return hs
 
 
+_REPLAYER_LOCK = __import__("threading").Lock()
+
+
+def build_replayer(ov, scratch, env):
+    """Build /verif/replayer against the overlay copy of the current tree (public API, no cfg). -> binary path or None."""
+    import shutil
+    import subprocess
+    with _REPLAYER_LOCK:
+        d = os.path.join(scratch, "replayer")
+        binp = os.path.join(d, "target", "debug", "gv-replayer")
+        if os.path.exists(binp):
+            return binp, ""
+        shutil.rmtree(d, ignore_errors=True)
+        shutil.copytree(os.path.join(os.path.dirname(__file__), "replayer"), d)
+        toml = open(os.path.join(d, "Cargo.toml.in")).read().replace("@GRENAD@", ov)
+        open(os.path.join(d, "Cargo.toml"), "w").write(toml)
+        lock = os.path.join(ov, "Cargo.lock")
+        if os.path.exists(lock):
+            shutil.copy(lock, os.path.join(d, "Cargo.lock"))
+        p = subprocess.run(["cargo", "build", "--offline", "-q"], cwd=d, env=env, capture_output=True, text=True)
+        if p.returncode != 0 and os.path.exists(os.path.join(d, "Cargo.lock")):
+            os.remove(os.path.join(d, "Cargo.lock"))
+            p = subprocess.run(["cargo", "build", "--offline", "-q"], cwd=d, env=env, capture_output=True, text=True)
+        if p.returncode != 0:
+            return None, "replayer build failed:\n" + p.stderr[-2000:]
+        return binp, ""
+
+
+def _hexs(bs):
+    return "".join("%02x" % b for b in bs) or "-"
+
+
+def spec_from_vectors(h, vecs):
+    """Map Kani's concrete-playback vectors (one per kani::any() call, program order) onto the harness inputs."""
+    levels, tree = LAYOUT_TREES[h["layout"]]
+    n = len(tree_entries(tree))
+    it = iter(vecs)
+
+    def usize():
+        return int.from_bytes(bytes(next(it)), "little")
+
+    def byte():
+        return next(it)[0]
+    lines = ["levels %d" % levels, "version %d" % h.get("version", 2), "interval %d" % h.get("interval", 1),
+             "tree " + tree_str(tree)]
+    kl = 2
+    for _ in range(n):
+        ln = usize()
+        kb = [byte() for _ in range(kl)]
+        lines.append("key " + _hexs(kb[:ln]))
+    nprobes = h.get("probes", 1)
+    for j in range(nprobes):
+        pb = [byte() for _ in range(3)]
+        ln = usize()
+        lines.append("probe%s %s" % ("" if j == 0 else "2", _hexs(pb[:ln])))
+    mode = h.get("mode", "cursor")
+    if mode == "cursor":
+        lines.append("ops " + " ".join(h["schema"]))
+    else:
+        extra = []
+        for name in h.get("mode_args", []):
+            extra.append(name if not name.startswith("@") else "UIE"[byte()])
+        lines.append("mode %s %s" % (mode, " ".join(extra)))
+    return "\n".join(lines) + "\n"
+
+
 def native_replay(h, tests, decode, ov, scratch, env):
-    return None, "native replayer not available for this harness"
+    import subprocess
+    if "layout" not in h:
+        return None, "native replayer not available for this harness"
+    binp, msg = build_replayer(ov, scratch, env)
+    if not binp:
+        return None, msg
+    log = []
+    for t in tests[:4]:
+        try:
+            spec = spec_from_vectors(h, decode(t))
+        except (StopIteration, IndexError) as e:
+            log.append("could not map playback vectors onto harness inputs: %r" % (e,))
+            continue
+        sp = os.path.join(scratch, "spec_%s_%d.txt" % (h["name"].split("::")[-1], len(log)))
+        open(sp, "w").write(spec)
+        p = subprocess.run([binp, sp], capture_output=True, text=True, timeout=120)
+        log.append("--- replay spec (real bytes built by an independent encoder, run through the public API):\n" + spec + p.stdout + p.stderr[-1500:])
+        if p.returncode == 1 and "REPRODUCED" in p.stdout:
+            return True, "\n".join(log)
+    return False, "\n".join(log)
 
 
 # ------------------------------------------------------------------------------------------------ manifest data
@@ -188,18 +273,89 @@ if __name__ == "__main__":
 
 
 # ------------------------------------------------------------------------------------------- L3 glue (generated harnesses)
-LAYOUTS = {  # name -> (const, levels, n entries, description)
-    "e0": ("LAY_EMPTY0", 0, 0, "empty file, levels 0"),
-    "e2": ("LAY_EMPTY2", 2, 0, "empty file, levels 2"),
-    "l0s": ("LAY_L0_1", 0, 1, "levels 0: root -> d(e0)"),
-    "l0a": ("LAY_L0_22", 0, 4, "levels 0: root -> d(e0,e1) d(e2,e3)"),
-    "l0b": ("LAY_L0_121", 0, 4, "levels 0: root -> d(e0) d(e1,e2) d(e3)"),
-    "l1": ("LAY_L1_211", 1, 4, "levels 1: root -> l1 -> d(e0,e1) d(e2) d(e3)"),
-    "l2a": ("LAY_L2_21_2", 2, 5, "levels 2: root -> l1 -> A[d(e0,e1) d(e2)] B[d(e3,e4)]"),
-    "l2b": ("LAY_L2_1_12", 2, 4, "levels 2: root -> l1 -> A[d(e0)] B[d(e1) d(e2,e3)]"),
-    "l2c": ("LAY_L2_2_2_1", 2, 5, "levels 2: root -> l1 -> A[d(e0,e1)] B[d(e2,e3)] C[d(e4)]"),
-    "l3": ("LAY_L3", 3, 4, "levels 3: root -> l1 -> P[A[d(e0)] B[d(e1)]] Q[C[d(e2) d(e3)]]"),
+def D(*idx):
+    return ("D", list(idx))
+
+
+def I(*children):
+    return ("I", list(children))
+
+
+# name -> (levels, tree). Trees the real writer can produce: the root has <= 1 entry when levels >= 1, level 1 is a single
+# block, only levels >= 2 are split. Leaves D(..) list indices into the sorted entry table.
+LAYOUT_TREES = {
+    "e0": (0, I()),
+    "e2": (2, I()),
+    "l0s": (0, I(D(0))),
+    "l0a": (0, I(D(0, 1), D(2, 3))),
+    "l0b": (0, I(D(0), D(1, 2), D(3))),
+    "l1": (1, I(I(D(0, 1), D(2), D(3)))),
+    "l2a": (2, I(I(I(D(0, 1), D(2)), I(D(3, 4))))),
+    "l2b": (2, I(I(I(D(0)), I(D(1), D(2, 3))))),
+    "l2c": (2, I(I(I(D(0, 1)), I(D(2, 3)), I(D(4))))),
+    "l3": (3, I(I(I(I(D(0)), I(D(1))), I(I(D(2), D(3)))))),
 }
+
+
+def tree_str(t):
+    if t[0] == "D":
+        return "D(%s)" % ",".join(str(i) for i in t[1])
+    return "I(%s)" % ",".join(tree_str(c) for c in t[1])
+
+
+def tree_entries(t):
+    if t[0] == "D":
+        return list(t[1])
+    out = []
+    for c in t[1]:
+        out += tree_entries(c)
+    return out
+
+
+LAYOUTS = {}  # name -> (rust const, levels, n entries, description)
+for _i, (_name, (_lv, _tree)) in enumerate(LAYOUT_TREES.items()):
+    LAYOUTS[_name] = ("LAY_%s" % _name.upper(), _lv, len(tree_entries(_tree)), "levels %d: %s" % (_lv, tree_str(_tree)))
+
+
+def layout_rust():
+    """Rust source of the layout constants and build_layout(), generated from LAYOUT_TREES."""
+    out = ["// generated by registry.py from LAYOUT_TREES (the native replayer builds real files from the same trees)"]
+    for i, name in enumerate(LAYOUT_TREES):
+        out.append("pub(crate) const %s: u8 = %d; // %s" % (LAYOUTS[name][0], i, LAYOUTS[name][3]))
+    out.append("pub(crate) fn build_layout(id: u8, minlen: usize, maxlen: usize) -> Layout {")
+    out.append("    match id {")
+    names = list(LAYOUT_TREES)
+    for i, name in enumerate(names):
+        levels, tree = LAYOUT_TREES[name]
+        n = len(tree_entries(tree))
+        body = []
+        counter = [0]
+
+        def emit(t):
+            if t[0] == "D":
+                v = "b%d" % counter[0]
+                counter[0] += 1
+                idx = t[1]
+                assert idx == list(range(idx[0], idx[0] + len(idx)))
+                body.append("let %s = data_block(e + %d, %d);" % (v, idx[0], len(idx)))
+                return v
+            kids = [emit(c) for c in t[1]]
+            assert len(kids) <= 4
+            v = "b%d" % counter[0]
+            counter[0] += 1
+            body.append("let %s = index_block(&[%s], %d);" % (v, ", ".join(kids + ["0"] * (4 - len(kids))), len(kids)))
+            return v
+        root = emit(tree)
+        pat = "_" if i == len(names) - 1 else LAYOUTS[name][0]
+        out.append("        %s => {" % pat)
+        out.append("            let e = add_entries(%d, minlen, maxlen);" % n if n else "            let e = 0usize; let _ = (e, minlen, maxlen);")
+        out += ["            " + l for l in body]
+        out.append("            Layout { root: %s, levels: %d, n: %d }" % (root, levels, n))
+        out.append("        }")
+    out.append("    }")
+    out.append("}")
+    return "\n".join(out) + "\n"
+
 
 _OPRS = {"first": "Op::First", "last": "Op::Last", "next": "Op::Next", "prev": "Op::Prev", "reset": "Op::Reset",
          "current": "Op::Current", "clone": "Op::CloneSwitch"}
@@ -270,12 +426,15 @@ G("c03_hist", "l2a", ["first", "first", "next", "next", "next", "current", "firs
 G("c03_hist", "l2a", ["last", "last", "prev", "prev", "current", "last"], ["C03", "C16"])
 G("c03_hist", "l2a", ["first", "next", "next", "next", "first", "ge:4"], ["C03", "C16"])
 G("c03_hist", "l2a", ["last", "prev", "prev", "last", "le:0"], ["C03", "C16"])
-G("c03_hist", "l2a", ["ge:sym", "ge:sym", "next", "next", "ge:sym"], ["C03", "C02", "C16"])
+G("c03_hist", "l2a", ["first", "next", "next", "next", "ge:sym"], ["C03", "C02", "C16"])
+G("c03_hist", "l2a", ["last", "prev", "prev", "le:sym"], ["C03", "C02", "C16"])
 G("c03_hist", "l2a", ["first", "next", "clone", "next", "next", "fork:next"], ["C03", "C16"])
 G("c03_hist", "l2a", ["last", "clone", "prev", "prev", "fork:prev", "reset", "next"], ["C03", "C16"])
 
 
 def generate(kit_dst):
+    with open(os.path.join(kit_dst, "layout_gen.rs"), "w") as f:
+        f.write(layout_rust())
     with open(os.path.join(kit_dst, "cursor_gen.rs"), "w") as f:
         f.write("// generated by registry.py from the schema table\n")
         for _, src in GEN_CURSOR:
